@@ -1,7 +1,59 @@
 """C07 (query reply routing), C22 (keyring persistence), C23 (cluster key operations): spec/QueryReply.tla, spec/KeyOps.tla."""
 PROPS = ["C07", "C22", "C23"]
 # id: (level, what the check establishes, trusted base / assumptions, technique, DESIGN.md section)
-CLAIMS = {}
+CLAIMS = {
+    'C07': (
+        'model_checking',
+        'TLC checks the C07 monitors (per query and node at most one ack and one response on AckCh()/ResponseCh(); only replies whose LTime and ID '
+        'equal the query\'s; no reply whose handling began after the deadline is delivered; channels never seen closed before the deadline, both '
+        'seen closed after the timer body, no close-of-closed / send-on-closed panic) exhaustively on spec/QueryReply.tla: every interleaving, at '
+        'lock-scope granularity, of two concurrent Query() calls, their deadlines and timer bodies, a packet handler delivering freely chosen '
+        'replies (matching / other times and ids, duplicates, acks and responses) and the application reading. Binding: TLC-simulated sequences of '
+        'whole operations are executed on a real quiet Serf node (Query() with RequestAck, replies in wire format through NotifyMsg) built from the '
+        'yield-instrumented working tree with virtual time; the same sequences split into threads plus hand-written race programs (late reply vs '
+        'timeout vs second Query(), two Query() calls sharing a Lamport time) run under every schedule with <=2 preemptions (budgeted) and seeded '
+        'random schedules of a cooperative scheduler; a subset runs on the unchanged files with the real clock and real timers; TLC validates '
+        'every trace line against the spec (subset construction over unlogged locals) and evaluates the monitors on the observed channels.',
+        'Trusts TLC, the yield instrumenter (yields before every statement, cooperative Lock/RLock) and the textual rerouting of time.Now (query.go) '
+        'and time.AfterFunc (registerQueryResponse) to harness hooks in the instrumented copies, the overlay accessors reading queryResponse and '
+        'QueryResponse fields, the wire-format mirror of messageQueryResponse. Replies are handled by one thread at a time (memberlist packet '
+        'handler); distinct queries draw distinct random ids; channel capacity 1 (single quiet node).',
+        'TLA+ spec + TLC exhaustive check of the monitors; TLC-simulated operation sequences replayed on the real node; systematic schedule '
+        'enumeration of the instrumented real code; TLC trace validation with property monitors on observed state',
+        '5 C07',
+    ),
+    'C22': (
+        'model_checking',
+        'TLC checks the C22 monitors (after every request the keyring file, loaded through the agent\'s own loader, yields exactly the live key set '
+        'with the same primary key; a rejected request changes neither keyring nor file) exhaustively on the keyring part of spec/KeyOps.tla (all '
+        'request sequences up to the bound over install/use/remove x {three valid keys, two wrong lengths, undecodable request, non-base64 API '
+        'argument} from three initial keyrings) and on every step of TLC-simulated request sequences plus all request pairs executed on a real '
+        'quiet node with Keyring + KeyringFile: the real internal queries are delivered in wire format through NotifyMsg, a step ends when its '
+        'reply packet is captured on the transport, the file is reloaded with agent.Create(KeyringFile), and TLC validates each observation '
+        'against the model.',
+        'Trusts TLC, the in-process transport capture, the wire-format mirror of the query / key request messages. Requests are handled one after '
+        'another; file writes succeed; empty request payloads are excluded (handler panic, property C09).',
+        'TLA+ spec + TLC exhaustive check; TLC-generated request sequences replayed on a real node; TLC trace validation with property monitors',
+        '5 C22',
+    ),
+    'C23': (
+        'model_checking',
+        'TLC enumerates from spec/KeyOps.tla every reply multiset of size <=4 over {ok with 4 key sets, ok+message, failed, wrong type byte, '
+        'undecodable, empty payload} x 1..4 members x list/install/use/remove and, for truncation, key counts x key lengths 16/24/32 bytes x every '
+        'size limit within 1 of a size the truncation loop compares with (exact msgpack sizes); the model passes the C23 monitors on all of them. '
+        'Binding: each input is executed for real -- KeyManager operations on the first node of a quiet cluster with that many memberlist members, '
+        'replies injected for the query\'s (LTime, ID) read off the broadcast queue; real _serf_list-keys queries to a node holding N keys under '
+        'the given QueryResponseSizeLimit, reply captured on the transport -- and TLC compares every observation with the model (KeyResponse '
+        'fields, error flag; encoded size, keys listed, the "i of n" note) and evaluates the monitors (NumResp, NumErr = failed + undecodable, '
+        'per-key and per-primary-key counts, error iff failure or fewer replies than members; size <= limit when one key fits, prefix, note).',
+        'Trusts TLC, the transport capture and broadcast-queue drain, the wire-format mirrors. At most one reply per member; counts filed under '
+        'the empty key name are not judged; query LTime < 128, 65536 <= ID < 2^32 and a 6-character node name fix the reply envelope size; quick '
+        'tier executes a seeded sample of the aggregation inputs and 12 key counts.',
+        'TLA+ definitions + TLC enumeration of the input space and model check of the monitors; every input executed on real nodes; TLC trace '
+        'validation (exact conformance) with property monitors',
+        '5 C23',
+    ),
+}
 import json
 import os
 import random
@@ -277,7 +329,194 @@ def run_c07(ctx, replay=None):
     vlib.finish(ctx, "model_checking", cov, assume, new, known)
 
 
+# ----------------------------------------------------------------------------- C22 / C23
+
+def build_keys(ctx):
+    """Unchanged files of the current tree + the accessor hooks."""
+    ov = vlib.overlay_for(ctx, hook_pkgs=[("serf", "serf_yield"), ("serf", "serf_queryflow")])
+    return vlib.go_build(ctx, "queryflow", overlay=ov, name="bin-queryflow-rt")
+
+
+def key_cfg(mode, max_steps=5, ns=(0, 1), emit=False):
+    return ("CONSTANT MaxSteps = %d\nCONSTANT MaxReplies = 4\nCONSTANT MaxMembers = 4\nCONSTANT TruncNs = {%s}\n"
+            "CONSTANT TruncKCs = {24, 32, 44}\nCONSTANT TruncNL = 6\nINIT %sInit\nNEXT %sNext\nINVARIANT Props\n%s"
+            % (max_steps, ", ".join(str(n) for n in ns), mode, mode, "ACTION_CONSTRAINT Emit\n" if emit else ""))
+
+
+KEY_TRACE_CFG = "SPECIFICATION TraceSpec\nINVARIANT Done\n"
+
+
+def key_drive(ctx, binary, mode, inputs, tag):
+    ip = os.path.join(ctx.scratch, "%s-%s-in.ndjson" % (mode, tag))
+    tp = os.path.join(ctx.scratch, "%s-%s-trace.ndjson" % (mode, tag))
+    with open(ip, "w") as f:
+        for x in inputs:
+            f.write(json.dumps(x, separators=(",", ":")) + "\n")
+    rc, out = vlib.run_driver(ctx, binary, ["-mode", mode, "-in", ip, "-out", tp, "-scratch", ctx.scratch], timeout=3000)
+    if rc != 0:
+        raise vlib.Inconclusive("queryflow driver (%s %s) failed rc=%d:\n%s" % (mode, tag, rc, out[-3000:]))
+    summary = json.loads(out.strip().splitlines()[-1])
+    ctx.log("driver", mode, tag, summary)
+    if summary.get("crashes"):
+        raise vlib.Inconclusive("the node under test crashed in mode %s (not a C22/C23 verdict):\n%s" % (mode, out[-3000:]))
+    return tp, summary
+
+
+def key_confirm(ctx, binary, rep, inputs_of, prefix):
+    """Monitor reports -> violations confirmed by a second execution from scratch.  inputs_of(trace id) = (mode, input)."""
+    viol, seen = [], {}
+    for (tid, line, clauses, tags) in rep.monitors:
+        mine = sorted(c for c in clauses if c.startswith(prefix))
+        if not mine:
+            continue
+        key = ",".join(mine)
+        if seen.get(key, 0) >= 2:
+            continue
+        seen[key] = seen.get(key, 0) + 1
+        mode, inp = inputs_of(tid)
+        tp2, _ = key_drive(ctx, binary, mode, [inp], "re%d" % tid)
+        rep2 = vlib.validate(ctx, "Trace_KeyOps", KEY_TRACE_CFG, tp2)
+        again = sorted(set(c for m in rep2.monitors for c in m[2] if c in mine))
+        if again:
+            viol.append({"clauses": again, "tags": [], "schedule": inp, "mode": mode})
+        else:
+            ctx.log("report %s on input %d not reproduced; ignored" % (mine, tid))
+    return viol
+
+
+def run_c22(ctx, replay=None):
+    thorough = ctx.thorough()
+    rng = random.Random(ctx.seed)
+    binary = build_keys(ctx)
+    mc = None
+    if replay:
+        inputs = [json.load(open(replay))["schedule"]]
+        inputs[0]["id"] = 0
+    else:
+        mc = vlib.tlc(ctx, "Gen_KeyOps", key_cfg("Ring", max_steps=6 if thorough else 5), timeout=3000)
+        if mc.violated:
+            raise vlib.Inconclusive("the keyring model violates its own C22 monitors -- spec error, no verdict")
+        num, depth = (2500, 6) if thorough else (260, 6)
+        _, scheds = vlib.simulate_schedules(ctx, "Gen_KeyOps", key_cfg("Ring", max_steps=6).replace("INVARIANT Props\n", ""),
+                                            num, depth + 1, timeout=3000)
+        inputs = []
+        for s in scheds:
+            if s and s[0]["a"] == "kinit" and len(s) > 1:
+                inputs.append({"init": s[0]["init"], "steps": s[1:]})
+        # plus every pair of requests from every initial keyring (quick: a seeded third of them)
+        ops = [{"a": "kop", "op": o, "k": k} for o in ("install", "use", "remove") for k in range(1, 8)]
+        pairs = [{"init": init, "steps": [a, b]} for init in ([1], [2, 1], [1, 2, 3]) for a in ops for b in ops]
+        inputs += pairs if thorough else rng.sample(pairs, len(pairs) // 3)
+        for i, x in enumerate(inputs):
+            x["id"] = i
+    tp, summ = key_drive(ctx, binary, "keyring", inputs, "a")
+    rep = vlib.validate(ctx, "Trace_KeyOps", KEY_TRACE_CFG, tp, timeout=3000)
+    viol = key_confirm(ctx, binary, rep, lambda tid: ("keyring", dict(inputs[tid], id=0)), "C22_")
+    new, known = vlib.classify(ctx.prop, viol)
+    kinds = {}
+    for x in inputs:
+        for st in x["steps"]:
+            key = "%s:%d" % (st["op"], st["k"])
+            kinds[key] = kinds.get(key, 0) + 1
+    cov = {
+        "states": mc.distinct if mc else 1, "transitions": mc.generated if mc else 1, "exhaustive": bool(mc),
+        "model_constants": "keys {k1 16B, k2 24B, k3 32B} + {15B, 33B, undecodable request, non-base64 API argument}; initial rings "
+                           "<<1>>, <<2,1>>, <<1,2,3>>; every request sequence of length <= %d" % (5 if thorough else 4),
+        "traces_validated_against_impl": rep.traces, "trace_lines": rep.lines, "divergences": len(rep.diverged),
+        "evaluations": summ.get("steps", 0), "distinct_nontrivial": len(set(json.dumps([x["init"], x["steps"]]) for x in inputs)),
+        "requests_by_kind": kinds,
+        "rule": "TLC -simulate request sequences (<=5) plus all pairs of requests, each delivered as the real internal query "
+                "(_serf_install-key / _serf_use-key / _serf_remove-key, wire format, NotifyMsg) to a node with Keyring + KeyringFile; after "
+                "every step the file is loaded through agent.Create(KeyringFile) and compared with the live keyring; TLC validates every step "
+                "against KeyOps.tla and judges it with the C22 monitors",
+        "samples": [dict(init=inputs[0]["init"], steps=inputs[0]["steps"][:5])] if inputs else [],
+    }
+    assume = ["requests are handled one after another (the next one is sent after the previous reply was captured)",
+              "file system writes succeed (a failing os.WriteFile is outside the property's 'rejected as invalid')",
+              "empty request payloads are excluded (they crash the handler: property C09)"]
+    vlib.finish(ctx, "model_checking", cov, assume, new, known)
+
+
+TRUNC_NS_QUICK = [0, 1, 2, 3, 4, 15, 16, 17, 31, 40, 41, 60]
+
+
+def run_c23(ctx, replay=None):
+    thorough = ctx.thorough()
+    rng = random.Random(ctx.seed)
+    binary = build_keys(ctx)
+    gen = dist = 0
+    if replay:
+        v = json.load(open(replay))
+        agg = [v["schedule"]] if v.get("mode") == "keyagg" else []
+        trunc = [v["schedule"]] if v.get("mode") == "keytrunc" else []
+    else:
+        r = vlib.tlc(ctx, "Gen_KeyOps", key_cfg("Agg", emit=True), timeout=3000)
+        if r.violated:
+            raise vlib.Inconclusive("the aggregation model violates its own C23 monitors -- spec error, no verdict")
+        gen, dist = gen + r.generated, dist + r.distinct
+        agg = [s[0] for s in vlib.edge_schedules(r)]
+        if len(agg) < 1000:
+            raise vlib.Inconclusive("only %d aggregation inputs enumerated" % len(agg))
+        if not thorough:
+            agg = rng.sample(agg, 700)
+        for x in agg:
+            rng.shuffle(x["rs"])        # arrival order
+        ns = list(range(0, 61)) if thorough else TRUNC_NS_QUICK
+        r = vlib.tlc(ctx, "Gen_KeyOps", key_cfg("Trunc", ns=ns, emit=True), timeout=3000)
+        if r.violated:
+            raise vlib.Inconclusive("the truncation model violates its own C23 monitors -- spec error, no verdict")
+        gen, dist = gen + r.generated, dist + r.distinct
+        trunc = [s[0] for s in vlib.edge_schedules(r)]
+        trunc.sort(key=lambda x: (x["kc"], x["n"], x["limit"]))
+    for i, x in enumerate(agg):
+        x["id"] = i
+    for i, x in enumerate(trunc):
+        x["id"] = 1000000 + i
+    allp = os.path.join(ctx.scratch, "c23-all-trace.ndjson")
+    summ = {}
+    with open(allp, "w") as out:
+        for mode, inputs in (("keyagg", agg), ("keytrunc", trunc)):
+            if inputs:
+                tp, summ[mode] = key_drive(ctx, binary, mode, inputs, "a")
+                with open(tp) as f:
+                    for line in f:
+                        out.write(line)
+    rep = vlib.validate(ctx, "Trace_KeyOps", KEY_TRACE_CFG, allp, timeout=3000)
+    if rep.diverged:
+        ctx.log("divergences: %s" % rep.diverged[:8])
+
+    def inputs_of(tid):
+        return ("keytrunc", trunc[tid - 1000000]) if tid >= 1000000 else ("keyagg", agg[tid])
+    viol = key_confirm(ctx, binary, rep, inputs_of, "C23_")
+    new, known = vlib.classify(ctx.prop, viol)
+    late = summ.get("keyagg", {}).get("late", 0)
+    if late > max(5, len(agg) // 20):
+        raise vlib.Inconclusive("%d of %d aggregation runs were overtaken by the query timeout" % (late, len(agg)))
+    cov = {
+        "states": dist or 1, "transitions": gen or 1, "exhaustive": bool(dist),
+        "model_constants": "aggregation: reply multisets <= 4 over {ok x 4 key sets, ok+message x 2, failed, wrong type byte, undecodable, empty}, "
+                           "members 1..4, list/install/use/remove; truncation: key counts %s, keys of 16/24/32 bytes, every size limit within 1 "
+                           "of a size the loop compares with" % ("0..60" if thorough else TRUNC_NS_QUICK),
+        "traces_validated_against_impl": rep.traces, "trace_lines": rep.lines, "divergences": len(rep.diverged),
+        "evaluations": sum(s.get("evaluations", 0) for s in summ.values()), "distinct_nontrivial": len(agg) + len(trunc),
+        "aggregation_inputs": len(agg), "truncation_inputs": len(trunc), "driver": summ,
+        "rule": "every input enumerated by TLC from KeyOps.tla (quick: a seeded sample of the aggregation inputs) is executed: real "
+                "KeyManager.ListKeys/InstallKey/UseKey/RemoveKey on the first node of a quiet cluster with the wanted number of memberlist "
+                "members, replies injected for the query's (LTime, ID) read off the broadcast queue; real _serf_list-keys queries to a node "
+                "holding N keys under the given QueryResponseSizeLimit, reply captured on the transport; TLC compares every observation with "
+                "the model (exact encoded sizes) and judges it with the C23 monitors",
+        "samples": [agg[0]] if agg else [],
+    }
+    assume = ["at most one reply per member and no more replies than members (streamKeyResp stops reading at NumResp = NumNodes)",
+              "PrimaryKeys[\"\"] / Keys[\"\"] entries (replies naming no primary key) are not judged",
+              "truncation: query LTime < 128, 65536 <= ID < 2^32, node name of 6 characters (fixes the envelope size); relay factor 0",
+              "'one key fits' = the reply listing one key plus the truncation note is within the limit"]
+    vlib.finish(ctx, "model_checking", cov, assume, new, known)
+
+
 def run(ctx, replay=None):
     if ctx.prop == "C07":
         return run_c07(ctx, replay)
-    raise vlib.Inconclusive("not implemented yet")
+    if ctx.prop == "C22":
+        return run_c22(ctx, replay)
+    return run_c23(ctx, replay)
